@@ -54,6 +54,9 @@ impl Gen {
                     } else {
                         Instr::Abort(h)
                     }
+                } else if self.allow_abortable && self.r.chance(1, 2) {
+                    // a task aborting a command (possibly its own) from inside
+                    Instr::AbortCmd(self.r.below(2 + self.next_abort as u64) as u32)
                 } else {
                     Instr::SelfWake(1 + self.r.below(2) as u32)
                 }
@@ -64,6 +67,7 @@ impl Gen {
                 self.expr(),
                 self.r.below(3) as u32,
                 self.instrs(budget / 2, depth + 1),
+                self.r.chance(1, 3),
             ),
             8 | 9 => {
                 let h = self.next_handle;
